@@ -62,11 +62,15 @@ St == [kind |-> kind, ditems |-> ditems, litems |-> litems, parent |-> parent,
 Alive(s) == {n \in Nodes : s.kind[n] # "free"}
 FreeSet(s) == {n \in Nodes : s.kind[n] = "free"}
 MinOf(S) == CHOOSE x \in S : \A y \in S : x <= y
-IsDictLike(s, n) == s.kind[n] \in {"dict", "tdict", "obj", "objb", "objc", "objd"}
+IsDictLike(s, n) == s.kind[n] \in {"dict", "tdict", "obj", "objb", "objc", "objd", "sd3", "sd2", "sd1"}
 \* "tdict": a pg.Dict bound to a value spec with one dynamic key admitting any value: it behaves like a schemaless
 \* dict (except that popitem() is refused) but takes the typed code paths (e.g. pass-through construction in clone)
 IsPlainDict(s, n) == s.kind[n] \in {"dict", "tdict"}
-IsObj(s, n) == s.kind[n] \in {"obj", "objb", "objc", "objd"}
+\* "sd3" / "sd2" / "sd1": a pg.Dict bound to a three-level schema with fixed keys
+\*   sd3 = {a : sd2 = {a : sd1 = {a : Any = None, b : Any = None}, b : Any = None}, b : Any = None}
+\* i.e. exactly what the attribute container of an object is: fixed keys, defaults, a typed member that is never
+\* replaced.  They follow the rules of objects (IsObj) but are plain containers: no change subscription of their own.
+IsObj(s, n) == s.kind[n] \in {"obj", "objb", "objc", "objd", "sd3", "sd2", "sd1"}
 \* "objd": class D(A) with allow_symbolic_mutation = False: instances are born sealed (the constructor seals deeply)
 \* "tlist": a pg.List bound to List(Object(Symbolic), min_size = 1): it rejects leaves and plain containers (TypeError)
 \* and refuses to become empty (ValueError); a rejected write leaves the whole tree as it was
@@ -212,7 +216,7 @@ NoUpd == <<>>
 WriteD(s, n, k, vd) ==
   LET i == KeyIdx(s, n, k)
       old == IF i = 0 THEN MISSING ELSE s.ditems[n][i][2]
-  IN IF s.kind[n] = "objc" /\ k = 1 THEN [ok |-> FALSE, s |-> s, ups |-> NoUpd]   \* the typed field of C is not written
+  IN IF s.kind[n] \in {"objc", "sd3", "sd2"} /\ k = 1 THEN [ok |-> FALSE, s |-> s, ups |-> NoUpd]   \* the typed member of C / of a schema dict is not written
      ELSE IF old = vd /\ IsRef(vd) THEN [ok |-> TRUE, s |-> s, ups |-> NoUpd]        \* same object: no update
      ELSE IF vd = MISSING THEN
        IF i = 0 THEN [ok |-> TRUE, s |-> s, ups |-> NoUpd]
@@ -312,11 +316,22 @@ RECURSIVE MissingSet(_,_)
 MissingSet(s, n) ==
   UNION { IF IsRef(kv[2]) THEN { <<kv[1]>> \o p : p \in MissingSet(s, kv[2]) }
           ELSE IF s.kind[n] = "objb" /\ kv[1] = 1 /\ kv[2] = MISSING THEN { <<kv[1]>> } ELSE {} : kv \in Slot(s, n) }
-RECURSIVE NonDefaultSet(_,_)
-NonDefaultSet(s, n) ==
-  UNION { IF IsRef(kv[2]) THEN { <<kv[1]>> \o p : p \in NonDefaultSet(s, kv[2]) }
-          ELSE IF kv[2] = MISSING \/ (IsObj(s, n) /\ kv[2] = DefaultOf(s.kind[n], kv[1])) THEN {}
+\* A schema dict (sd*) is compared with its defaults only where it is asked itself: as the root of the question, as the
+\* typed member of an enclosing schema dict, or as a member of a plain dict / list (which ask their members).  A
+\* schema-bound holder (object, schema dict, "tdict") reports the value of an untyped slot AS A WHOLE, and the
+\* flattened report then lists every leaf below it -- down to the next object, which is asked again.
+IsSD(s, n) == s.kind[n] \in {"sd3", "sd2", "sd1"}
+IsRealObj(s, n) == s.kind[n] \in {"obj", "objb", "objc", "objd"}
+SchemaBound(s, n) == IsObj(s, n) \/ s.kind[n] = "tdict"
+RECURSIVE NDS(_,_,_)
+NDS(s, n, plain) ==
+  UNION { IF IsRef(kv[2])
+          THEN LET c == kv[2]
+                   cplain == ~IsRealObj(s, c) /\ (plain \/ (SchemaBound(s, n) /\ ~(s.kind[n] \in {"sd3", "sd2"} /\ kv[1] = 1)))
+               IN { <<kv[1]>> \o p : p \in NDS(s, c, cplain) }
+          ELSE IF kv[2] = MISSING \/ (~plain /\ IsObj(s, n) /\ kv[2] = DefaultOf(s.kind[n], kv[1])) THEN {}
           ELSE { <<kv[1]>> } : kv \in Slot(s, n) }
+NonDefaultSet(s, n) == NDS(s, n, FALSE)
 NoFacts == <<FALSE, {}, {}, FALSE>>
 FactsOf(s, n) == <<TRUE, MissingSet(s, n), NonDefaultSet(s, n), HasPH(s, n)>>
 AllFacts(s) == IF "facts" \in Acts THEN [n \in Nodes |-> IF s.kind[n] = "free" THEN NoFacts ELSE FactsOf(s, n)]
@@ -596,13 +611,13 @@ JsonRoundTrip(n) ==                        \* pg.from_json(pg.to_json(n)): a fre
   /\ Cardinality(FreeSet(St)) >= Cardinality(Desc(St, n))
   /\ LET c == CloneInto(St, n)
          fresh == Desc(c.s, c.root)
-         s1 == [c.s EXCEPT !.kind = [m \in Nodes |-> IF m \in fresh /\ c.s.kind[m] = "tdict" THEN "dict"
+         s1 == [c.s EXCEPT !.kind = [m \in Nodes |-> IF m \in fresh /\ c.s.kind[m] \in {"tdict", "sd3", "sd2", "sd1"} THEN "dict"
                                                       ELSE IF m \in fresh /\ c.s.kind[m] = "tlist" THEN "list" ELSE c.s.kind[m]],
                            \* a loaded tree carries the class defaults: a D is born sealed, and its constructor seals what it holds
                            !.sealed = [m \in Nodes |-> IF m \in fresh THEN (\E a \in ({m} \cup Ancestors(c.s, m)) : c.s.kind[a] = "objd")
                                                         ELSE c.s.sealed[m]],
                            !.accw = [m \in Nodes |-> IF m \in fresh THEN TRUE ELSE c.s.accw[m]],
-                           !.subs = [m \in Nodes |-> IF m \in fresh THEN IsObj(c.s, m) ELSE c.s.subs[m]]]
+                           !.subs = [m \in Nodes |-> IF m \in fresh THEN c.s.kind[m] \in {"obj", "objb", "objc", "objd"} ELSE c.s.subs[m]]]
      IN Commit(s1, Ok(c.root), {})
 
 Seal(n, b) ==                              \* n.seal(b): recursive
@@ -684,17 +699,28 @@ IK_ObjbDict == <<"objb", "dict">>
 IK_TDictList == <<"tdict", "list">>
 
 IK_TListDict == <<"tlist", "dict">>
+IK_ObjcDict == <<"objc", "dict">>
+IK_Sd3Dict == <<"sd3", "dict">>
 \* a typed list is never empty: an initial root of kind "tlist" starts with one A() member, which takes the id
-\* Len(InitKinds) + (id of the list)
+\* Len(InitKinds) + (id of the list); an initial root of kind "objc" (class C) holds its default A() under m the same way
 InitTL(n) == n <= Len(InitKinds) /\ InitKinds[n] = "tlist"
-InitTLChild(n) == n > Len(InitKinds) /\ n <= 2 * Len(InitKinds) /\ InitKinds[n - Len(InitKinds)] = "tlist"
+InitOC(n) == n <= Len(InitKinds) /\ InitKinds[n] = "objc"
+InitTLChild(n) == n > Len(InitKinds) /\ n <= 2 * Len(InitKinds) /\ InitKinds[n - Len(InitKinds)] \in {"tlist", "objc"}
+\* an initial root of kind "sd3" comes with its two nested levels: ids Len(InitKinds) + n (sd2) and 2 * Len(InitKinds) + n (sd1)
+InitSD(n) == n <= Len(InitKinds) /\ InitKinds[n] = "sd3"
+InitSD2(n) == n > Len(InitKinds) /\ n <= 2 * Len(InitKinds) /\ InitKinds[n - Len(InitKinds)] = "sd3"
+InitSD1(n) == n > 2 * Len(InitKinds) /\ n <= 3 * Len(InitKinds) /\ InitKinds[n - 2 * Len(InitKinds)] = "sd3"
 Init ==
-  /\ kind = [n \in Nodes |-> IF n <= Len(InitKinds) THEN InitKinds[n] ELSE IF InitTLChild(n) THEN "obj" ELSE "free"]
-  /\ ditems = [n \in Nodes |-> IF (n <= Len(InitKinds) /\ InitKinds[n] \in {"obj", "objd"}) \/ InitTLChild(n) THEN << <<1, PNONE>>, <<2, PNONE>> >>
-                              ELSE IF n <= Len(InitKinds) /\ InitKinds[n] = "objb" THEN << <<1, MISSING>>, <<2, PNONE>> >> ELSE <<>>]
+  /\ kind = [n \in Nodes |-> IF n <= Len(InitKinds) THEN InitKinds[n] ELSE IF InitTLChild(n) THEN "obj"
+                            ELSE IF InitSD2(n) THEN "sd2" ELSE IF InitSD1(n) THEN "sd1" ELSE "free"]
+  /\ ditems = [n \in Nodes |-> IF (n <= Len(InitKinds) /\ InitKinds[n] \in {"obj", "objd"}) \/ InitTLChild(n) \/ InitSD1(n) THEN << <<1, PNONE>>, <<2, PNONE>> >>
+                              ELSE IF InitSD(n) \/ InitSD2(n) THEN << <<1, Len(InitKinds) + n>>, <<2, PNONE>> >>
+                              ELSE IF n <= Len(InitKinds) /\ InitKinds[n] = "objb" THEN << <<1, MISSING>>, <<2, PNONE>> >>
+                              ELSE IF InitOC(n) THEN << <<1, Len(InitKinds) + n>>, <<2, PNONE>> >> ELSE <<>>]
   /\ litems = [n \in Nodes |-> IF InitTL(n) THEN <<Len(InitKinds) + n>> ELSE <<>>]
-  /\ parent = [n \in Nodes |-> IF InitTLChild(n) THEN n - Len(InitKinds) ELSE NULL]
-  /\ pkey = [n \in Nodes |-> IF InitTLChild(n) THEN LKey(0) ELSE NULL]
+  /\ parent = [n \in Nodes |-> IF InitTLChild(n) \/ InitSD2(n) \/ InitSD1(n) THEN n - Len(InitKinds) ELSE NULL]
+  /\ pkey = [n \in Nodes |-> IF InitTLChild(n) THEN (IF InitKinds[n - Len(InitKinds)] = "tlist" THEN LKey(0) ELSE 1)
+                            ELSE IF InitSD2(n) \/ InitSD1(n) THEN 1 ELSE NULL]
   /\ sealed = [n \in Nodes |-> n <= Len(InitKinds) /\ InitKinds[n] = "objd"]
   /\ accw = [n \in Nodes |-> TRUE]
   /\ subs = [n \in Nodes |-> n <= Len(InitKinds) \/ InitTLChild(n)]      \* the harness gives every root it creates a callback
